@@ -653,6 +653,7 @@ theorem straight_correct (env : Nat → Nat → Nat) (w fuel : Nat) (ls : List L
   | ifThen _ _ _ => simp [straight] at hs
   | ifElse _ _ _ _ _ => simp [straight] at hs
   | loop _ _ _ => simp [straight] at hs
+  | decl _ => simp [straight] at hs
 
 
 /-! ### declarations and whole straight-line programs -/
@@ -805,6 +806,27 @@ theorem locsFrom_spec (ds : List Bool) :
             simp only [List.getElem?_cons_succ] at hx hy
             rw [i3 x y l hx hy]
 
+/-- a straight-line body declares no block-local variable -/
+theorem blockLocs_straight (st : Stmt) (hs : straight st = true) :
+    ∀ mems, blockLocs st mems = ([], mems, []) := by
+  induction st with
+  | seq a b iha ihb =>
+    intro mems
+    simp only [straight, Bool.and_eq_true] at hs
+    simp [blockLocs, iha hs.1, ihb hs.2]
+  | skip => intro mems; rfl
+  | assign _ _ => intro mems; rfl
+  | inc _ => intro mems; rfl
+  | dec _ => intro mems; rfl
+  | iowrite _ _ => intro mems; rfl
+  | ifThen _ _ _ => simp [straight] at hs
+  | ifElse _ _ _ _ _ => simp [straight] at hs
+  | loop _ _ _ => simp [straight] at hs
+  | decl _ => simp [straight] at hs
+
+theorem allLocs_straight (p : Prog) (hs : straight p.body = true) : allLocs p = locs p.decls := by
+  simp [allLocs, blockLocs_straight p.body hs]
+
 theorem locs_inj (decls : List Bool) : LocsInj (locs decls) := (locsFrom_spec decls [] 0).2.2
 
 theorem mem_varRegs {ls : List Loc} {x g : Nat} (h : ls[x]? = some (.reg g)) : g ∈ varRegs ls := by
@@ -817,6 +839,7 @@ theorem compile_straight (env : Nat → Nat → Nat) (w fuel : Nat) (p : Prog) (
     (hc : compile p = some code) (hs : straight p.body = true) :
     runCode env w code code.length = ((goEval env w fuel p).1, true) ∧ (goEval env w fuel p).2 = true := by
   unfold compile at hc
+  rw [allLocs_straight p hs] at hc
   simp only at hc
   split at hc
   · rename_i c busy' hcs
